@@ -97,6 +97,8 @@ Merges7 == { \* parts of one item each
              <<MTagG(1, "P2", "n", "y"), MAddG(2, "P4", Pt(6, NT)), MAddG(2, "W1", Pa(<<"P0", "P1">>, NT))>> }
 MCMerges == IF Scenario = 7 THEN Merges7 ELSE {}
 
+\* ---- scenario 9: tag edits only (the operations MutableTagsOverlayWorld has) before and after up to two snapshots (C14)
+
 \* ---- scenario 8: features re-added with more / fewer polygons, members, items, tags and points than the stored
 \*      version (the grow and shrink branches of MergeFrom), then the caller changes what it passed in (C38, C12)
 Base8 == World([P0 |-> Pt(0, T("x", "-", "-")), P1 |-> Pt(1, NT), P2 |-> Pt(2, NT), P3 |-> Pt(5, NT),
@@ -115,9 +117,9 @@ Cand8 == { C("A1", Ar(<< <<"W1">>, <<"W3">> >>, T("-", "-", "x"))),      \* grow
            C("W2", Pa(<<"P0", "P3">>, T("x", "-", "-"))),                 \* new
            C("W2", Pa(<<"P0", "P3", "P2">>, T("x", "-", "-"))) }          \* grows by a point
 
-MCBase == CASE Scenario = 7 -> Base3 [] Scenario = 8 -> Base8 [] Scenario = 1 -> Base1 [] Scenario = 2 -> Base2 [] Scenario = 3 -> Base3
+MCBase == CASE Scenario = 7 -> Base3 [] Scenario = 8 -> Base8 [] Scenario = 9 -> Base5 [] Scenario = 1 -> Base1 [] Scenario = 2 -> Base2 [] Scenario = 3 -> Base3
             [] Scenario = 4 -> Base4 [] Scenario = 5 -> Base5 [] Scenario = 6 -> Base5
-MCCandidates == CASE Scenario = 7 -> Cand7 [] Scenario = 8 -> Cand8 [] Scenario = 1 -> Cand1 [] Scenario = 2 -> Cand2 [] Scenario = 3 -> Cand3
+MCCandidates == CASE Scenario = 7 -> Cand7 [] Scenario = 8 -> Cand8 [] Scenario = 9 -> {} [] Scenario = 1 -> Cand1 [] Scenario = 2 -> Cand2 [] Scenario = 3 -> Cand3
                   [] Scenario = 4 -> Cand4 [] Scenario = 5 -> Cand5 [] Scenario = 6 -> Cand5
 MCAddTagOps ==
    CASE Scenario = 1 -> {<<"P0", "#s", "x">>, <<"P0", "#s", "y">>, <<"P0", "n", "y">>,
@@ -129,6 +131,7 @@ MCAddTagOps ==
      [] Scenario = 5 -> {<<"P0", "#s", "y">>, <<"P0", "n", "x">>}
      [] Scenario = 7 -> {<<"P0", "n", "y">>}
      [] Scenario = 6 -> {<<"P0", "#s", "y">>}
+     [] Scenario = 9 -> {<<"P0", "n", "x">>, <<"P0", "n", "y">>, <<"W1", "n", "x">>, <<"P0", "#s", "y">>}
      [] OTHER -> {}
 MCRmTagOps ==
    CASE Scenario = 1 -> {<<"P0", "#s">>, <<"P0", "n">>, <<"A1", "#s">>, <<"A1", "n">>, <<"P3", "n">>, <<"P3", "#s">>}
@@ -136,7 +139,7 @@ MCRmTagOps ==
      [] Scenario = 5 -> {<<"P0", "#s">>, <<"P0", "n">>}
      [] Scenario = 6 -> {<<"P0", "#s">>}
      [] OTHER -> {}
-MCMaxSnaps == CASE Scenario = 5 -> 1 [] Scenario = 6 -> 2 [] OTHER -> 0
+MCMaxSnaps == CASE Scenario = 5 -> 1 [] Scenario = 6 -> 2 [] Scenario = 9 -> 2 [] OTHER -> 0
 MCWithMutate == Scenario \in {2, 3, 8}
 MCWithRoundTrip == Scenario \in {1, 2, 3, 8}
 
